@@ -56,10 +56,10 @@ def build(node):
     if 'lit' in node:
         return node['lit']
     if 'arr1' in node:
-        return np.array([dec(v) for v in node['arr1']], dtype=float)
+        return np.array([dec(v) for v in node['arr1']], dtype=node.get('dtype', 'float'))
     if 'arr' in node:
         cols = [[dec(v) for v in col] for col in node['arr']]
-        return np.array(cols, dtype=float).T.reshape((len(cols[0]) if cols else 0, len(cols)))
+        return np.array(cols, dtype=node.get('dtype', 'float')).T.reshape((len(cols[0]) if cols else 0, len(cols)))
     s = node['ts']
     index = pd.DatetimeIndex([GRID[p] for p in s['idx']])
     if s['cols'] is None:
@@ -316,10 +316,11 @@ def jsonable_tree(inp, tree):
         return {'d': {k: jsonable_tree(inp[k], t) for k, t in tree['d'].items()}} if isinstance(inp, dict) and list(inp) == list(tree['d']) else 'changed'
     if 'lit' in tree:
         return {'lit': inp}
+    extra = {'dtype': str(inp.dtype).rstrip('0123456789')} if 'dtype' in tree else {}
     if 'arr1' in tree:
-        return {'arr1': [enc(float(v)) for v in inp]}
+        return dict({'arr1': [enc(float(v)) for v in inp]}, **extra)
     if 'arr' in tree:
-        return {'arr': [[enc(float(v)) for v in inp[:, j]] for j in range(inp.shape[1])]}
+        return dict({'arr': [[enc(float(v)) for v in inp[:, j]] for j in range(inp.shape[1])]}, **extra)
     s = tree['ts']
     idx = [POS.get(t.to_pydatetime(), -1) for t in inp.index]
     if s['cols'] is None:
@@ -369,6 +370,11 @@ def _from_basket(inp, got, bad, path='$'):
     return got
 
 
+def _dkey(i, n):
+    """dict keys whose insertion order is the reverse of their sorted order (the first member is the one written first, not the alphabetically first)"""
+    return 'k%d' % (n - 1 - i)
+
+
 def jobs_for(tier, seed):
     rng = random.Random(seed)
     quick = tier == 'quick'
@@ -399,7 +405,7 @@ def jobs_for(tier, seed):
             members.append(mk_ts(rng, sid, idx, cols, rowwise=method is not None))
         for _l in range(rng.choice([0, 0, 1, 2])):
             members.insert(rng.randrange(len(members) + 1), {'lit': rng.choice(LITS)})
-        tree = members if rng.random() < .6 else {'d': {'k%d' % i: m for i, m in enumerate(members)}}
+        tree = members if rng.random() < .6 else {'d': {_dkey(i, len(members)): m for i, m in enumerate(members)}}
         jn = rng.choice(JOINS + [sorted(rng.sample(range(6), rng.randrange(0, 7)))])
         r = rng.random()
         if r < .6:
@@ -428,7 +434,7 @@ def jobs_for(tier, seed):
         if rng.random() < .3:
             members.insert(rng.randrange(len(members) + 1), {'lit': rng.choice(LITS)})
         r = rng.random()
-        tree = members if r < .5 else {'d': {'k%d' % i: m for i, m in enumerate(members)}} if r < .8 else [members[0], {'d': {'x': members[1:]}}]
+        tree = members if r < .5 else {'d': {_dkey(i, len(members)): m for i, m in enumerate(members)}} if r < .8 else [members[0], {'d': {'x': members[1:]}}]
         own = [l['ts']['idx'] for l in flat(tree) if 'ts' in l and l['ts']['cols']][0]
         jn = rng.choice(JOINS + [sorted(rng.sample(range(6), rng.randrange(0, 7))), list(own)])
         r = rng.random()
@@ -464,6 +470,20 @@ def jobs_for(tier, seed):
                         arrs.append({'arr': [col, [v if v == 'nan' else v + 100 for v in col]]} if two_d else {'arr1': col})
                     tree = arrs if rng.random() < .7 else {'d': {'k%d' % i: x for i, x in enumerate(arrs)}}
                     add('df_sync', tree, jn, None)
+    # D'. the same with integer and boolean arrays (no NaN inside): padding in front is NaN whatever the dtype of the array that is padded
+    rng_d = random.Random(seed + 77)
+    for lens in itertools.product(range(5), repeat=2):
+        for jn in JOINS:
+            for two_d in (False, True):
+                for dtype in ('int', 'bool'):
+                    arrs = []
+                    for sid, n in enumerate(lens):
+                        col = [float((10 * (sid + 1) + i) if dtype == 'int' else (i + sid) % 2) for i in range(n)]
+                        node = {'arr': [col, [v + (100 if dtype == 'int' else 0) for v in col]]} if two_d else {'arr1': col}
+                        if sid == 0 or rng_d.random() < .5:
+                            node['dtype'] = dtype
+                        arrs.append(node)
+                    add('df_sync', arrs, jn, None)
     # E. presync through a recording function: positional and keyword arguments, a dict argument, literals
     for _ in range(1500 if quick else 10000):
         a, b, c = [mk_ts(rng, sid, SUBSETS[rng.randrange(64)]) for sid in range(3)]
@@ -492,9 +512,9 @@ def run(tier, seed):
     c = Collector('C03', 'collections of 1-3 Series / one-column / multi-column (a,b,c) frames whose indices are subsets of a 6-day grid (all 64, empty '
                   'included; two-Series lists over %s pairs of index sets), values encode (member, column, day), NaN with probability 0.3 (cell by cell; with a fill method whole rows in '
                   'section B and, section B", multi-column frames with rows NaN in some columns only next to entirely-NaN rows: the row is the '
-                  'observation, only an entirely-NaN row is missing, a surviving row keeps its NaN cells), mixed with strings/numbers/None, in lists, dicts and 8 nested shapes; join in {ij,oj,lj,rj,explicit '
+                  'observation, only an entirely-NaN row is missing, a surviving row keeps its NaN cells), mixed with strings/numbers/None, in lists, dicts (keys inserted in descending order, so that written order and sorted key order differ) and 8 nested shapes; join in {ij,oj,lj,rj,explicit '
                   'index}; method in {None,ffill,bfill}; column policy in {default,ij,oj,lj,rj}; df_sync, df_reindex (index as policy, as pd.Index, as a '
-                  'timeseries), presync(recording function; columns=False for frames); bare numpy arrays: every 2- and 3-tuple of lengths 0..5, 1-d and 2-d, x 4 joins; seeded choices '
+                  'timeseries), presync(recording function; columns=False for frames); bare numpy arrays: every 2- and 3-tuple of lengths 0..5, 1-d and 2-d, x 4 joins, and every pair of lengths 0..4 with integer / boolean arrays; seeded choices '
                   'from random.Random(seed); a seeded sample of these collections again with every list an instance of a list subclass (looped over like a list, same class back). Distinct by (function, collection, join, method, columns); non-trivial when some member has at least one row'
                   % ('all 4096' if not quick else '~770 seeded'), exhaustive=False,
                   scope='index sets: subsets of 6 timestamps; <=3 timeseries per collection; nesting depth <=4; numpy lengths 0..5')
